@@ -14,7 +14,9 @@ import (
 	"sort"
 	"strconv"
 	"strings"
+	"sync"
 	"testing"
+	"testing/cryptotest"
 	"time"
 
 	"verif/sim"
@@ -33,6 +35,9 @@ type RunCtx struct {
 	// Params carries workload-specific overrides used by replay/minimisation
 	// (e.g. the fault cell of C04, a reduced configuration).
 	Params map[string]string
+	// Aux is scratch space of one run (e.g. the random sources handed out, for counting).
+	Aux   map[string]any
+	AuxMu *sync.Mutex
 }
 
 // Violation describes a property violation found in one run.
@@ -305,6 +310,13 @@ func accumulate(res *WorkerResult, out *Outcome) {
 }
 
 func safeRun(w *Workload, rc *RunCtx) (out Outcome) {
+	// every run starts from a fixed process-global crypto/rand state, so that a
+	// hidden use of the global source cannot make runs irreproducible
+	g := rc.Seed.Sub("global-rand").U64()
+	if v := rc.Params["global_rand"]; v != "" {
+		g = HashU64("global", v)
+	}
+	cryptotest.SetGlobalRandom(rc.T, g)
 	defer func() {
 		if r := recover(); r != nil {
 			out = Outcome{HarnessErr: fmt.Errorf("panic in harness/bubble: %v", r)}
